@@ -17,7 +17,7 @@ MISMATCH_FN = "mismatch current_cfg"
 VIOLATES_FN = "violates"
 RULE = ("diff cases = one generated history of 9-13 blocks (oracle prevote/vote by 3 validators, sudo EditSudoers with 3-6 "
         "contracts, EVM transfers / deploys / calls writing 1-5 slots and paying 0-4 fresh accounts, FunToken create/convert, "
-        "precompile calls, EOA->precompile txs with unknown selectors / truncated / malformed calldata for all three precompiles (VM error inside ResponseDeliverTx.Data), single txs that pay 2-12 fresh accounts and THEN call a Nibiru precompile (intermediate StateDB commit), sudo-gated oracle / inflation param edits, tokenfactory (sudo) denom metadata, gov proposals updating evm / devgas params (voted and executed), EVM access lists - every repeated message field with 6-15 entries in random order WITH DUPLICATES -, tokenfactory, authz grant/exec, delegate, bank send/multisend, day jumps for epochs+inflation) "
+        "precompile calls, messages that FAIL WHILE EXECUTING in every module (FunToken convert above balance / by a non-holder / wrong direction, CreateFunToken without metadata or from a non-ERC20 address, bank / delegate above balance, EVM value above balance, gas below intrinsic, future nonce, over-large sendToBank), restarts of the perturbed replica placed right after such failures with EVM traffic first thing afterwards, EOA->precompile txs with unknown selectors / truncated / malformed calldata for all three precompiles (VM error inside ResponseDeliverTx.Data), single txs that pay 2-12 fresh accounts and THEN call a Nibiru precompile (intermediate StateDB commit), sudo-gated oracle / inflation param edits, tokenfactory (sudo) denom metadata, gov proposals updating evm / devgas params (voted and executed), EVM access lists - every repeated message field with 6-15 entries in random order WITH DUPLICATES -, tokenfactory, authz grant/exec, delegate, bank send/multisend, day jumps for epochs+inflation) "
         "executed on 3 replicas from one genesis through BeginBlock/DeliverTx/EndBlock/Commit, compared per block on app hash, "
         "tx results and validator updates; non-trivial = the history successfully ran a multi-contract sudo edit AND an oracle "
         "vote round AND (an EVM call/deploy or a bank multisend that creates >= 2 accounts in one tx). Sub-model cases (sudo, "
